@@ -53,6 +53,7 @@ type Engine struct {
 	nonNilFields map[string]string // family key H|T|f -> "checked" | "assumed"
 	nonNilBoxed  map[string]bool
 	guarded      map[string]guardInfo // family key H|T|f -> mutex field
+	commuteVerdicts []*commuteVerdict
 }
 
 type guardInfo struct {
